@@ -12,6 +12,7 @@ import (
 	"time"
 
 	sdkmath "cosmossdk.io/math"
+	cmtcrypto "github.com/cometbft/cometbft/crypto"
 	storetypes "cosmossdk.io/store/types"
 	sdk "github.com/cosmos/cosmos-sdk/types"
 	authtypes "github.com/cosmos/cosmos-sdk/x/auth/types"
@@ -70,13 +71,22 @@ type htlcEnv struct {
 	initBal  int64
 	scale    *big.Int // magnitude tier: every amount on chain = model amount * scale (exact scaling)
 	cfgStr   string // effective configuration, attached to every logged event (self-describing replays)
+	lockOf   map[string]string // contract name -> hash lock (lower hex) of its create message
 }
 
 const (
 	depName = "dep"
 	modName = "htlc"
 	blkName = "blk"
+	poolName = "pool" // the escrow address of a coinswap pool (lpt-1): keyless like a module account, NOT blocked
 )
+
+// oddDenoms: ordinary coins (genesis supply, held by the users) whose denoms are
+// SHAPED like asset denoms but are no assets: an asset denom plus a letter, a
+// prefix of one (still a well-formed asset denom), one in upper case.  They are
+// part of the tracked universe, so whatever the code does with them shows in
+// the balance sheet.
+var oddDenoms = []string{"htltonex", "htlton", "HTLTONE"}
 
 func newHTLCEnv(fl *drv.Flags) *htlcEnv {
 	e := &htlcEnv{
@@ -90,6 +100,7 @@ func newHTLCEnv(fl *drv.Flags) *htlcEnv {
 		idName:   map[string]string{},
 		idHex:    map[string]string{},
 		locks:    map[string]lockInfo{},
+		lockOf:   map[string]string{},
 		initBal:  fl.CfgInt("initbal", 5),
 		scale:    parseScale(fl.CfgStr("scale", "1")),
 	}
@@ -101,7 +112,7 @@ func newHTLCEnv(fl *drv.Flags) *htlcEnv {
 	accts := map[string]string{depName: "1000stake"}
 	for _, u := range e.users {
 		s := "1000stake"
-		for _, d := range e.plain {
+		for _, d := range append(append([]string{}, e.plain...), oddDenoms...) {
 			s += fmt.Sprintf(",%s%s", e.amt(e.initBal).String(), d)
 		}
 		accts[u] = s
@@ -153,8 +164,10 @@ func newHTLCEnv(fl *drv.Flags) *htlcEnv {
 	}
 	e.addrs[modName] = chain.ModuleAddr(htlctypes.ModuleName)
 	e.addrs[blkName] = chain.ModuleAddr(authtypes.FeeCollectorName)
+	e.addrs[poolName] = sdk.AccAddress(cmtcrypto.AddressHash([]byte("lpt-1"))) // coinswap GetReservePoolAddr
 	e.names[e.addrs[modName].String()] = modName
 	e.names[e.addrs[blkName].String()] = blkName
+	e.names[e.addrs[poolName].String()] = poolName
 	ctx := c.Ctx()
 	for _, d := range e.denoms() {
 		sum := sdkmath.ZeroInt()
@@ -237,9 +250,11 @@ func withScale(fl *drv.Flags, k string) *drv.Flags {
 	return &nf
 }
 
-func (e *htlcEnv) denoms() []string { return append(append([]string{}, e.plain...), e.assets...) }
+func (e *htlcEnv) denoms() []string {
+	return append(append(append([]string{}, e.plain...), oddDenoms...), e.assets...)
+}
 func (e *htlcEnv) accounts() []string {
-	return append(append([]string{}, e.users...), depName, modName, blkName)
+	return append(append([]string{}, e.users...), depName, modName, blkName, poolName)
 }
 func (e *htlcEnv) signers() []string { return append(append([]string{}, e.users...), depName) }
 
@@ -475,7 +490,7 @@ func hexLower(s string) string {
 func htlcEvent(name string) chain.M {
 	return chain.M{"name": name, "who": "", "id": "", "to": "", "amt": chain.M{}, "sec": "", "lts": int64(0),
 		"ts": int64(0), "lock": int64(0), "transfer": false, "dt": int64(0), "n": int64(0), "params": chain.M{},
-		"ok": true, "panic": false, "halt": false, "mag": ""}
+		"ok": true, "panic": false, "halt": false, "mag": "", "form": ""}
 }
 
 // norm brings an abstract event read from JSON into the fixed record shape,
@@ -493,6 +508,7 @@ func (e *htlcEnv) norm(ev chain.M) chain.M {
 	o["lock"] = chain.Num(ev, "lock") * C
 	o["transfer"] = chain.Bool(ev, "transfer")
 	o["dt"], o["n"] = chain.Num(ev, "dt"), chain.Num(ev, "n")
+	o["form"] = chain.Str(ev, "form")
 	ps := chain.M{}
 	if raw, ok := ev["params"].(map[string]any); ok {
 		for d, v := range raw {
@@ -550,7 +566,24 @@ func (e *htlcEnv) msgOf(ev chain.M, blockTime time.Time) (sdk.Msg, string) {
 			ev["to"] = e.users[0]
 		}
 		lts, ts := ev["lts"].(int64), ev["ts"].(int64)
-		if e.tsNow && ev["transfer"].(bool) {
+		recreate := false
+		if chain.Str(ev, "form") == "recreate" {
+			// a second create of an EXISTING contract (any state): the hash lock must be the
+			// one on chain, so the timestamps are taken from the real record, not from the model
+			if hs, ok := e.last["htlc"].(chain.M); ok {
+				if c, ok := hs[chain.Str(ev, "id")].(chain.M); ok {
+					if v, ok := c["lts"].(int64); ok && v >= 0 {
+						lts, recreate = v, true
+						ev["lts"] = lts
+					}
+					if v, ok := c["ts"].(int64); ok && recreate {
+						ts = v
+						ev["ts"] = ts
+					}
+				}
+			}
+		}
+		if e.tsNow && ev["transfer"].(bool) && !recreate {
 			nowTs := blockTime.Unix() - e.t0.Unix() + tsOff
 			if lts != 0 {
 				lts = nowTs
@@ -566,6 +599,9 @@ func (e *htlcEnv) msgOf(ev chain.M, blockTime time.Time) (sdk.Msg, string) {
 		amount := e.coins(ev["amt"].(chain.M))
 		id := hex.EncodeToString(contractID(lock, e.addrs[who], to, amount))
 		ev["id"] = e.nameID(id, chain.Str(ev, "id"))
+		if _, ok := e.lockOf[chain.Str(ev, "id")]; !ok {
+			e.lockOf[chain.Str(ev, "id")] = hex.EncodeToString(lock)
+		}
 		return &htlctypes.MsgCreateHTLC{
 			Sender: e.addrs[who].String(), To: to.String(),
 			ReceiverOnOtherChain: "", SenderOnOtherChain: "",
@@ -573,12 +609,71 @@ func (e *htlcEnv) msgOf(ev chain.M, blockTime time.Time) (sdk.Msg, string) {
 			TimeLock: uint64(ev["lock"].(int64)), Transfer: ev["transfer"].(bool),
 		}, who
 	case "Claim":
-		return &htlctypes.MsgClaimHTLC{
-			Sender: e.addrs[who].String(), Id: e.hexOfName(chain.Str(ev, "id")),
-			Secret: hex.EncodeToString(secretOf(chain.Str(ev, "sec"))),
-		}, who
+		id, sec := e.claimBytes(ev)
+		return &htlctypes.MsgClaimHTLC{Sender: e.addrs[who].String(), Id: id, Secret: sec}, who
 	}
 	return nil, ""
+}
+
+// claimBytes manufactures the id and the secret of a claim from the event's
+// names and its form (HTLC.tla, negative probing): identifiers of the right
+// shape and the wrong kind.
+//
+//	idupper / secupper   upper-case hex of the very id / secret (the same bytes)
+//	idhl  (id "hl:<c>")  the hash lock of contract <c> presented as the id
+//	idpre (id "pre:<c>") the first half of <c>'s id, zero padded
+//	idrev (id "rev:<c>") <c>'s id with its halves swapped
+//	sechl (sec "hl:<c>") the hash lock of <c> presented as the secret
+//	secid (sec "id:<c>") the id of <c> presented as the secret
+func (e *htlcEnv) claimBytes(ev chain.M) (string, string) {
+	idName, secName, form := chain.Str(ev, "id"), chain.Str(ev, "sec"), chain.Str(ev, "form")
+	after := func(s string) string {
+		if i := strings.Index(s, ":"); i >= 0 {
+			return s[i+1:]
+		}
+		return s
+	}
+	lockHex := func(name string) string {
+		if l, ok := e.lockOf[name]; ok {
+			return l
+		}
+		s := sha256.Sum256([]byte("verif-unknown-lock:" + name))
+		return hex.EncodeToString(s[:])
+	}
+	var id string
+	switch form {
+	case "idhl":
+		id = lockHex(after(idName))
+	case "idpre":
+		id = e.hexOfName(after(idName))[:32] + strings.Repeat("0", 32)
+	case "idrev":
+		h := e.hexOfName(after(idName))
+		id = h[32:] + h[:32]
+	default:
+		id = e.hexOfName(idName)
+	}
+	if form == "idhl" || form == "idpre" || form == "idrev" {
+		if n, taken := e.idName[id]; taken && n != idName {
+			// the manufactured bytes are some contract's real id (cannot happen with sha256)
+			ev["id"] = n
+		}
+	}
+	var sec string
+	switch form {
+	case "sechl":
+		sec = lockHex(after(secName))
+	case "secid":
+		sec = e.hexOfName(after(secName))
+	default:
+		sec = hex.EncodeToString(secretOf(secName))
+	}
+	switch form {
+	case "idupper":
+		id = strings.ToUpper(id)
+	case "secupper":
+		sec = strings.ToUpper(sec)
+	}
+	return id, sec
 }
 
 func (e *htlcEnv) paramsMsg(ev chain.M) *htlctypes.MsgUpdateParams {
@@ -805,6 +900,58 @@ func (e *htlcEnv) updateParams(ev chain.M, w *chain.TraceWriter) {
 	e.last = st
 }
 
+// fault damages the committed state between two blocks (HTLC.tla DoFault; driver cfg
+// fault=1, default off, never used by a registered check): the only way to reach the
+// errors the begin blocker swallows on the code as it stands.
+func (e *htlcEnv) fault(ev chain.M, w *chain.TraceWriter) {
+	ctx, write := e.c.Ctx().CacheContext()
+	ok := true
+	func() {
+		defer func() {
+			if r := recover(); r != nil {
+				ok = false
+			}
+		}()
+		store := ctx.KVStore(e.c.App.UnsafeFindStoreKey(htlctypes.StoreKey))
+		amt, _ := ev["amt"].(chain.M)
+		switch chain.Str(ev, "form") {
+		case "drain":
+			to, known := e.addrs[chain.Str(ev, "who")]
+			if !known {
+				ok = false
+				return
+			}
+			// the bank keeper's own module-to-account path would refuse nothing here; use the
+			// plain keeper send so that blocked recipients do not matter
+			if err := e.c.App.BankKeeper.SendCoins(ctx, e.addrs[modName], to, e.coins(amt)); err != nil {
+				ok = false
+			}
+		case "dropsup":
+			for d := range amt {
+				store.Delete(htlctypes.GetAssetSupplyKey(d))
+			}
+		case "ghostq":
+			id, err := hex.DecodeString(e.hexOfName(chain.Str(ev, "id")))
+			if err != nil {
+				ok = false
+				return
+			}
+			h, _ := ev["lock"].(int64)
+			store.Set(htlctypes.GetHTLCExpiredQueueKey(uint64(h), id), []byte{})
+		default:
+			ok = false
+		}
+	}()
+	if ok {
+		write()
+	}
+	ev["ok"] = ok
+	e.inBlock = false
+	st := e.project(e.c.Ctx()).(chain.M)
+	e.logEv(w, ev, st)
+	e.last = st
+}
+
 func (e *htlcEnv) start(w *chain.TraceWriter) {
 	e.inBlock = false
 	e.last = e.project(e.c.Ctx()).(chain.M)
@@ -870,6 +1017,16 @@ func htlcRun(fl *drv.Flags, beh []chain.M, w *chain.TraceWriter, epilogue bool) 
 				return
 			}
 			e.updateParams(ev, w)
+		case "Fault":
+			if fl.CfgInt("fault", 0) != 1 {
+				continue // fault injection is off unless asked for
+			}
+			if !flush() {
+				return
+			}
+			// real units: the event's lock is a height, never a time lock to compress
+			ev["lock"] = chain.Num(raw, "lock")
+			e.fault(ev, w)
 		case "Create", "Claim":
 			if !open {
 				open, dt = true, 1
@@ -885,20 +1042,83 @@ func htlcRun(fl *drv.Flags, beh []chain.M, w *chain.TraceWriter, epilogue bool) 
 	}
 }
 
-// epilogue (C03): advance past every expiry, then one more block.
+// epilogue (C03, the money-back guarantee): computed from the REAL state, never
+// from what the model expected.  Advance past the expiry of everything the
+// chain still holds open or queued (so whatever the code accepted, rightly or
+// wrongly, meets its begin blocker), then one more block in which every
+// contract of the chain (at most closeMax) is claimed once more with its own
+// secret — by then none is open, so each of these claims must be rejected and
+// move nothing.
+const closeMax = 6
+
 func (e *htlcEnv) epilogue(w *chain.TraceWriter) {
+	if e.dead {
+		return
+	}
 	max := int64(0)
-	for _, x := range e.last["q"].([]any) {
-		if d := x.([]any)[0].(int64); d > max {
-			max = d
+	if q, ok := e.last["q"].([]any); ok {
+		for _, x := range q {
+			if p, ok := x.([]any); ok && len(p) == 2 {
+				if d, ok := p[0].(int64); ok && d > max {
+					max = d
+				}
+			}
 		}
 	}
-	if max > e.c.Height {
-		c := e.compress
-		e.compress = 1
-		e.skip(max-e.c.Height+1, 2, w)
-		e.compress = c
+	hs, _ := e.last["htlc"].(chain.M)
+	for _, v := range hs {
+		if c, ok := v.(chain.M); ok && c["state"] != "completed" && c["state"] != "refunded" {
+			if d, ok := c["expiry"].(int64); ok && d > max && d-e.c.Height <= 2*int64(htlctypes.MaxTimeLock) {
+				max = d
+			}
+		}
 	}
+	cmp := e.compress
+	e.compress = 1
+	defer func() { e.compress = cmp }()
+	if max > e.c.Height {
+		if !e.skip(max-e.c.Height+1, 2, w) {
+			return
+		}
+	}
+	hs, _ = e.last["htlc"].(chain.M)
+	ids := chain.SortedKeys(hs)
+	if len(ids) == 0 {
+		return
+	}
+	// the closeMax contracts closed last are the interesting ones; keep the order stable
+	expOf := func(id string) int64 {
+		if c, ok := hs[id].(chain.M); ok {
+			if d, ok := c["expiry"].(int64); ok {
+				return d
+			}
+		}
+		return 0
+	}
+	sort.SliceStable(ids, func(a, b int) bool { return expOf(ids[a]) > expOf(ids[b]) })
+	if len(ids) > closeMax {
+		ids = ids[:closeMax]
+	}
+	var pending []chain.M
+	signers := e.signers()
+	for k, id := range ids {
+		c, ok := hs[id].(chain.M)
+		if !ok {
+			continue
+		}
+		sec, _ := c["sec"].(string)
+		if sec == "" || sec == "?" {
+			sec = "junk"
+		}
+		cl := htlcEvent("Claim")
+		who, _ := c["to"].(string)
+		if _, can := e.c.Accts[who]; !can || k%3 == 2 {
+			who = signers[k%len(signers)]
+		}
+		cl["who"], cl["id"], cl["sec"], cl["form"] = who, id, sec, "closing"
+		pending = append(pending, cl)
+	}
+	e.runBlock(1, pending, w)
 }
 
 func htlcDriver(mode string, fl *drv.Flags) error {
